@@ -28,7 +28,7 @@ def prop(pid, test, quick, thorough, rule, bounds, technique, level_text, level_
                       assumptions=list(assumptions), race=race, inflight=inflight)
 
 
-q, t = tiers(12000, 400000)
+q, t = tiers(12000, 400000, t_fuzz=[dict(target="FuzzGenC07", seconds=60)])
 prop("C07", "TestC07", q, t,
      rule="rapid draws a shape (type tree), instantiates a JSON-shaped Map from it and walks the shape to draw a path "
           "(15% '*' steps, optional [i], 1-6 steps, 10% one missing key); 10% of cases come from class boosters "
@@ -43,7 +43,7 @@ prop("C07", "TestC07", q, t,
                 "(a plain step does not enter a list that is a direct member of a list). Bounded sizes; no proof of absence.",
      design_ref="DESIGN.md section 4, C07")
 
-q, t = tiers(5000, 150000)
+q, t = tiers(5000, 150000, t_fuzz=[dict(target="FuzzGenC01", seconds=60)])
 prop("C01", "TestC01", q, t,
      rule="rapid draws an option set (attribute prefix x key prefix x 2^6 decoder switches x cast switches) and an abstract XML document "
           "(names from a 13-name alphabet with folding collisions, namespaced names, xmlns declarations, 0-3 attributes, text alone / at any position among children, "
@@ -82,7 +82,7 @@ prop("C03", "TestC03", q, t,
      level_note="Trusted: refElems/refDecode, encoding/xml. Narrowings: '-k'/'#text' values are non-null scalars; no root without an element name; keys are XML names.",
      design_ref="DESIGN.md section 4, C03")
 
-q, t = tiers(4000, 100000)
+q, t = tiers(4000, 100000, t_fuzz=[dict(target="FuzzGenC04", seconds=60)])
 prop("C04", "TestC04", q, t,
      rule="rapid draws documents with arbitrary interleaving of sibling names, prefixed names and xmlns attributes, ordered attributes, <=1 comment/PI/directive per element at any position, "
           "text alone or before the children, inter-element whitespace, hostile values; MapSeq.Xml, MapSeq.XmlIndent, BeautifyXml and NewMapFormattedXmlSeq(indented) are each compared. "
@@ -142,7 +142,7 @@ prop("C09", "TestC09", q, t,
      level_note="Trusted: reference enumeration (30 lines). Lists directly inside lists are outside the property's domain.",
      design_ref="DESIGN.md section 4, C09")
 
-q, t = tiers(12000, 400000)
+q, t = tiers(12000, 400000, t_fuzz=[dict(target="FuzzGenC10", seconds=60)])
 prop("C10", "TestC10", q, t,
      rule="shape-first Maps and plain/wildcard paths (10% from a booster with a list as the node before the last key), key = last path segment (form 1) or another key (form 2), 0-2 sub-key conditions, "
           "new value as single-entry map / mxj.Map (unique sentinel scalar or small map) or as 'key:value[:type]' string with ':' or '|' separator; wrappers j2x.JsonUpdateValsForPath / x2j.XmlUpdateValsForPath. "
@@ -177,7 +177,7 @@ prop("C12", "TestC12", q, t,
      level_note="Trusted: refEval and the expected-map builder.",
      design_ref="DESIGN.md section 4, C12")
 
-q, t = tiers(6000, 200000)
+q, t = tiers(6000, 200000, t_fuzz=[dict(target="FuzzGenC13", seconds=60)])
 prop("C13", "TestC13", q, t,
      rule="1-5 generated XML documents (Map and sequence styles) or JSON objects (keys/strings with braces, quotes, backslashes, a trailing escaped backslash; compact or indented) concatenated with whitespace runs; "
           "a reader schedule of 0-60 actions (deliver min(k,len(p),rest) bytes for k in {1,2,3,7,64} or (0,nil)), final bytes with or before io.EOF, bare or behind a 16-byte bufio.Reader; "
@@ -215,7 +215,7 @@ prop("C15", "TestC15", q, t,
      level_note="Termination is approximated by a 60 s watchdog. A fatal runtime error (stack overflow) cannot be shrunk: the unshrunk in-flight case is reported.",
      design_ref="DESIGN.md section 4, C15", inflight=True)
 
-q, t = tiers(5000, 150000)
+q, t = tiers(3000, 100000)
 prop("C16", "TestC16", q, t,
      rule="Maps from three sources (JSON-shaped values with attribute/text entries and occasional 24-key maps; decoded documents; MapSeqs of decoded documents), each rebuilt twice with generated insertion orders and map capacities, "
           "encoded repeatedly through every encoder entry point (compact/indent/Writer/WriterRaw/Maps string forms/file forms x XML/JSON/Seq) with blank prefix/indent strings. "
